@@ -19,6 +19,7 @@ structure Mem where
   S : Nat                              -- sector size in bytes
   dev : Nat → Nat → Nat := fun _ _ => 0  -- device: sector (relative to the block) → index → byte
   img : Nat → Nat → Nat := fun _ _ => 0  -- shared sector images (`sharedSector.data`) by object identity → index → byte
+  wlog : List (Nat × Nat) := []        -- the `WriteAt` calls so far, most recent first: (first sector, number of sectors)
 
 /-- Allocation state of the block (`writeOffsetSectors`, `sharedSector`). -/
 structure Alloc where
@@ -36,6 +37,11 @@ structure W where
 
 /-- `writeOffsetBytes` of the shared sector, 0 when there is none. -/
 def Alloc.off (a : Alloc) : Nat := match a.shared with | some (_, o) => o | none => 0
+
+/-- `HasSpace(size)` for a block of `sectors` sectors (the Go code computes in `int64`; `wos ≤ sectors` is an invariant,
+see `C01Sector.sector_in_block`, so natural-number subtraction agrees with it). -/
+def hasSpace (S sectors : Nat) (a : Alloc) (size : Nat) : Bool :=
+  decide ((sectors - a.wos) * S - a.off ≥ size)
 
 /-- `Put(size)`: the new allocation state, the writer and the byte offset of the object within the block. -/
 def alloc (S : Nat) (a : Alloc) (size : Nat) : Alloc × W × Nat :=
@@ -70,7 +76,7 @@ def W.stage1 (m : Mem) (w : W) (p : List Nat) : Mem × W × List Nat × Bool :=
     let image := setRange (m.img id) w.firstOff (p.take n)
     let m := { m with img := setAt m.img id image }
     if w.firstOff + n < m.S then (m, { w with firstOff := w.firstOff + n }, p.drop n, true)
-    else ({ m with dev := setAt m.dev w.off image },
+    else ({ m with dev := setAt m.dev w.off image, wlog := (w.off, 1) :: m.wlog },
           { w with firstImg := none, firstOff := w.firstOff + n, off := w.off + 1 }, p.drop n, false)
   | none => (m, w, p, false)
 
@@ -80,14 +86,15 @@ def W.stage2 (m : Mem) (w : W) (p : List Nat) : Mem × W × List Nat × Bool :=
     let n := min p.length (m.S - w.part.length)
     let part := w.part ++ p.take n
     if part.length < m.S then (m, { w with part := part }, p.drop n, true)
-    else ({ m with dev := setAt m.dev w.off (fun i => part.getD i 0) },
+    else ({ m with dev := setAt m.dev w.off (fun i => part.getD i 0), wlog := (w.off, 1) :: m.wlog },
           { w with part := [], off := w.off + 1 }, p.drop n, false)
   else (m, w, p, false)
 
 /-- Steps 3 and 4: whole sectors go to the device directly, the remainder is kept. -/
 def W.stage3 (m : Mem) (w : W) (p : List Nat) : Mem × W :=
   let cnt := p.length / m.S
-  ({ m with dev := if cnt > 0 then writeSectors m.S m.dev w.off cnt p else m.dev },
+  ({ m with dev := if cnt > 0 then writeSectors m.S m.dev w.off cnt p else m.dev,
+            wlog := if cnt > 0 then (w.off, cnt) :: m.wlog else m.wlog },
    { w with off := w.off + cnt, part := w.part ++ p.drop (cnt * m.S) })
 
 /-- `Write(p)`. -/
@@ -104,7 +111,7 @@ def W.flush (m : Mem) (w : W) : Mem :=
   | none => m
   | some id =>
     let image := setRange (m.img id) 0 w.part
-    { m with img := setAt m.img id image, dev := setAt m.dev w.off image }
+    { m with img := setAt m.img id image, dev := setAt m.dev w.off image, wlog := (w.off, 1) :: m.wlog }
 
 /-- Byte at byte offset `pos` of the block as found on the device. -/
 def devByte (m : Mem) (pos : Nat) : Nat := m.dev (pos / m.S) (pos % m.S)
@@ -155,5 +162,13 @@ def Sys.step (objs : List (List Nat)) (s : Sys) : Ev → Sys
     | none => s
 
 def Sys.run (objs : List (List Nat)) (S : Nat) (evs : List Ev) : Sys := evs.foldl (Sys.step objs) (Sys.init S)
+
+/-- Every `Put` of the run was preceded by a successful `HasSpace` (as `findBlockWithSpace` guarantees). -/
+def Sys.guarded (objs : List (List Nat)) (sectors : Nat) : Sys → List Ev → Bool
+  | _, [] => true
+  | s, e :: es =>
+    (match e with
+     | .alloc => hasSpace s.m.S sectors s.a (objs.getD s.ws.length []).length
+     | _ => true) && Sys.guarded objs sectors (s.step objs e) es
 
 end BB.SectorWriter
